@@ -1,5 +1,18 @@
 package eng
 
+import (
+	"bufio"
+	"encoding/json"
+	"flag"
+	"fmt"
+	"os"
+	"path/filepath"
+	"sort"
+	"strconv"
+	"strings"
+	"time"
+)
+
 // LoadAllSpecs reads the contract files for every loaded package and registers them.
 func (e *Engine) LoadAllSpecs(specDir string) error {
 	ss, src, err := LoadSpecs(e.P, specDir)
@@ -24,4 +37,407 @@ func (e *Engine) LoadAllSpecs(specDir string) error {
 	return nil
 }
 
-func CmdCheck(args []string) int { return 2 }
+// ---------------------------------------------------------------------------------------------
+// Known findings (committed file, never written at run time)
+
+type KnownFinding struct {
+	Property   string `json:"property"`
+	Obligation string `json:"obligation"`
+	Status     string `json:"status"` // known | fixed
+	What       string `json:"what"`
+	Witness    string `json:"witness,omitempty"`
+	Commit     string `json:"commit,omitempty"`
+}
+
+func loadKnown(path string) []KnownFinding {
+	f, err := os.Open(path)
+	if err != nil {
+		return nil
+	}
+	defer f.Close()
+	var out []KnownFinding
+	sc := bufio.NewScanner(f)
+	sc.Buffer(make([]byte, 1<<20), 1<<20)
+	for sc.Scan() {
+		l := strings.TrimSpace(sc.Text())
+		if l == "" || strings.HasPrefix(l, "#") || strings.HasPrefix(l, "//") || strings.HasPrefix(l, "fixed:") {
+			continue
+		}
+		var k KnownFinding
+		if json.Unmarshal([]byte(l), &k) == nil {
+			out = append(out, k)
+		}
+	}
+	return out
+}
+
+// ---------------------------------------------------------------------------------------------
+// Which packages carry contracts for a property (cheap text scan of the spec files)
+
+func specPackagesFor(repo, specDir, prop string) ([]string, error) {
+	seen := map[string]bool{}
+	var out []string
+	scan := func(root string, isRepo bool) {
+		filepath.Walk(root, func(p string, info os.FileInfo, err error) error {
+			if err != nil || info.IsDir() {
+				if info != nil && info.IsDir() && (info.Name() == ".git" || info.Name() == "ext" && !isRepo) {
+					return filepath.SkipDir
+				}
+				return nil
+			}
+			if info.Name() != "contracts_verif.go" {
+				return nil
+			}
+			rel, _ := filepath.Rel(root, filepath.Dir(p))
+			b, _ := os.ReadFile(p)
+			if prop == "" || strings.Contains(string(b), prop) {
+				if !seen[rel] {
+					seen[rel] = true
+					out = append(out, "./"+rel)
+				}
+			}
+			return nil
+		})
+	}
+	scan(specDir, false)
+	scan(repo, true)
+	sort.Strings(out)
+	return out, nil
+}
+
+// ---------------------------------------------------------------------------------------------
+// check command
+
+type sample struct {
+	Obligation string  `json:"obligation"`
+	Kind       string  `json:"kind"`
+	Function   string  `json:"function"`
+	Position   string  `json:"position,omitempty"`
+	Verdict    string  `json:"verdict"`
+	Solver     string  `json:"solver,omitempty"`
+	Seconds    float64 `json:"seconds"`
+	Path       string  `json:"path,omitempty"`
+}
+
+func hasProp(ps []string, p string) bool {
+	for _, x := range ps {
+		if x == p {
+			return true
+		}
+	}
+	return false
+}
+
+func CmdCheck(args []string) int {
+	fs := flag.NewFlagSet("check", flag.ExitOnError)
+	prop := fs.String("prop", "", "property id")
+	tier := fs.String("tier", os.Getenv("VERIF_TIER"), "quick|thorough")
+	repo := fs.String("repo", "/repo", "repository working tree")
+	verif := fs.String("verif", "/verif", "verif dir")
+	only := fs.String("f", "", "restrict to functions containing this substring (debug)")
+	fs.Parse(args)
+	if *tier != "thorough" {
+		*tier = "quick"
+	}
+	seed, _ := strconv.Atoi(os.Getenv("VERIF_SEED"))
+	t0 := time.Now()
+	specDir := filepath.Join(*verif, "specs")
+	evPath := filepath.Join(*verif, "evidence", *prop+".json")
+	os.MkdirAll(filepath.Dir(evPath), 0o755)
+	os.Remove(evPath)
+	fail := func(msg string) int {
+		fmt.Printf("dgv: %s\n", msg)
+		rp := filepath.Join(*verif, "replays", *prop, "engine-error.json")
+		os.MkdirAll(filepath.Dir(rp), 0o755)
+		b, _ := json.MarshalIndent(map[string]string{"property": *prop, "error": msg}, "", " ")
+		os.WriteFile(rp, b, 0o644)
+		fmt.Printf("VIOLATION property=%s replay=%s no-failing-input-found\n", *prop, rp)
+		return 1
+	}
+	pkgs, _ := specPackagesFor(*repo, specDir, *prop)
+	if len(pkgs) == 0 {
+		return fail("no contract mentions property " + *prop)
+	}
+	p, err := LoadProgram(*repo, pkgs)
+	if err != nil {
+		return fail("cannot load the repository: " + err.Error())
+	}
+	e := NewEngine(p)
+	if err := e.LoadAllSpecs(specDir); err != nil {
+		return fail("cannot load contracts: " + err.Error())
+	}
+	e.MakeReplayer(*verif, 60)
+	loadSecs := time.Since(t0).Seconds()
+	// functions in the slice: tagged with the property, closed under contract use
+	var work []string
+	inSlice := map[string]bool{}
+	for k, s := range e.Specs {
+		if hasProp(s.Props, *prop) && (*only == "" || strings.Contains(k, *only)) {
+			work = append(work, k)
+			inSlice[k] = true
+		}
+	}
+	sort.Strings(work)
+	timeout := 6
+	if *tier == "thorough" {
+		timeout = 60
+	}
+	scratch, _ := os.MkdirTemp("", "dgv-")
+	if d := os.Getenv("DGV_SCRATCH"); d != "" {
+		os.MkdirAll(d, 0o755)
+		scratch, _ = os.MkdirTemp(d, "dgv-")
+	}
+	defer os.RemoveAll(scratch)
+	var results []*FuncResult
+	var all []*Oblig
+	tagged := len(work)
+	for i := 0; i < len(work); i++ {
+		k := work[i]
+		r := e.VerifyFunc(k)
+		results = append(results, r)
+		all = append(all, r.Obligs...)
+		for _, u := range r.Used {
+			if !inSlice[u] {
+				inSlice[u] = true
+				work = append(work, u)
+			}
+		}
+	}
+	stats := e.SolveAll(all, SolveOpts{Timeout: timeout, Scratch: scratch, Workers: 16})
+	// re-run unknowns alone (a query that timed out under 16-way load gets one more chance)
+	var retry []*Oblig
+	for _, o := range all {
+		if o.Verdict == "unknown" {
+			retry = append(retry, o)
+		}
+	}
+	if len(retry) > 0 && len(retry) <= 24 {
+		e.SolveAll(retry, SolveOpts{Timeout: timeout * 2, Scratch: scratch, Workers: 4})
+	}
+	known := loadKnown(filepath.Join(*verif, "known_findings.jsonl"))
+	knownBy := map[string]KnownFinding{}
+	for _, k := range known {
+		if k.Property == *prop && k.Status == "known" {
+			knownBy[k.Obligation] = k
+		}
+	}
+	// classify
+	total, discharged, trivial := 0, 0, 0
+	var violations []*Oblig
+	knownHit := map[string]bool{}
+	var samples []sample
+	var funcs []string
+	abstracted := map[string]bool{}
+	trusted := map[string]bool{}
+	paths := 0
+	var engineErrs []string
+	for _, r := range results {
+		funcs = append(funcs, ShortKey(r.Key))
+		trivial += r.Trivial
+		paths += r.Paths
+		for _, a := range r.Abstracted {
+			abstracted[ShortKey(r.Key)+": "+a] = true
+		}
+		if r.Spec != nil && r.Spec.Trusted {
+			trusted["trusted contract: "+ShortKey(r.Key)] = true
+		}
+		if r.Err != "" {
+			engineErrs = append(engineErrs, ShortKey(r.Key)+": "+r.Err)
+			o := &Oblig{ID: ShortKey(r.Key) + "#subset", Kind: "subset", Fn: r.Key, Verdict: "unknown", Output: r.Err}
+			r.Obligs = append(r.Obligs, o)
+			all = append(all, o)
+		}
+	}
+	for _, o := range all {
+		good := o.Verdict == "unsat" && !o.Cover || o.Cover && o.Verdict == "sat"
+		if _, isKnown := knownBy[o.ID]; isKnown && !good {
+			knownHit[o.ID] = true
+			continue
+		}
+		total++
+		if good {
+			discharged++
+		} else {
+			violations = append(violations, o)
+		}
+		if len(samples) < 12 && (len(samples) < 4 || !good) {
+			samples = append(samples, sample{o.ID, o.Kind, ShortKey(o.Fn), o.Pos, o.Verdict, o.Solver, round3(o.Secs), o.Path})
+		}
+	}
+	sort.Strings(funcs)
+	// report
+	exit := 0
+	for id := range knownHit {
+		fmt.Printf("KNOWN-FINDING: property=%s %s — %s\n", *prop, id, knownBy[id].What)
+	}
+	for id, k := range knownBy {
+		if !knownHit[id] {
+			fmt.Printf("note: known finding %s did not fail on this tree (stale entry?) — %s\n", id, k.What)
+		}
+	}
+	seenViol := map[string]bool{}
+	for _, o := range violations {
+		exit = 1
+		if seenViol[o.ID] {
+			continue
+		}
+		seenViol[o.ID] = true
+		rp := e.writeReplay(*verif, *prop, o)
+		suffix := ""
+		if !o.Replayed {
+			suffix = " no-failing-input-found"
+		}
+		fmt.Printf("VIOLATION property=%s replay=%s%s\n", *prop, rp, suffix)
+	}
+	wall := time.Since(t0).Seconds()
+	var solverSecs float64
+	for _, s := range stats.Secs {
+		solverSecs += s
+	}
+	tb := []string{
+		"dgv VC generator (SSA semantics of DESIGN §3, gc/amd64 layout), go/ssa, SMT solvers z3 5.1.0 / cvc5 1.0 / z3 4.8.12",
+		"standing size assumption: 0 <= len <= cap < 2^40, offsets < 2^47 for every slice/string",
+		"spec functions are transcriptions of the Thrift binary / Protobuf encoding specifications",
+	}
+	for k := range trusted {
+		tb = append(tb, k)
+	}
+	for k := range abstracted {
+		tb = append(tb, "abstracted (havoc/arbitrary result): "+k)
+	}
+	sort.Strings(tb[3:])
+	var knownList []string
+	for id := range knownHit {
+		knownList = append(knownList, id)
+	}
+	sort.Strings(knownList)
+	ev := map[string]interface{}{
+		"property_id": *prop,
+		"tier":        *tier,
+		"seed":        seed,
+		"level":       "proof",
+		"wall_s":      round3(wall),
+		"violations":  len(seenViol),
+		"coverage": map[string]interface{}{
+			"obligations":                total,
+			"discharged":                 discharged,
+			"obligations_trivial":        trivial,
+			"obligations_known_failing":  knownList,
+			"checker_cmd":                "z3-new -T:" + strconv.Itoa(timeout) + " <vc>.smt2  (then cvc5 / z3 4.8.12 raced on unknown); VCs generated by /verif/bin/dgv check -prop " + *prop,
+			"trusted_base":               tb,
+			"functions_under_contract":   funcs,
+			"functions_tagged":           tagged,
+			"paths":                      paths,
+			"per_backend":                stats.PerSolver,
+			"solver_seconds":             round3(solverSecs),
+			"load_seconds":               round3(loadSecs),
+			"spec_source":                e.SpecSource,
+			"engine_errors":              engineErrs,
+			"samples":                    samples,
+			"explanation":                "each obligation is one SMT query (negated goal under the path condition) generated from go/ssa of the current /repo tree; discharged = unsat on some back end (covers: sat)",
+		},
+		"assumptions": tb,
+	}
+	b, _ := json.MarshalIndent(ev, "", " ")
+	os.WriteFile(evPath, b, 0o644)
+	fmt.Printf("dgv: property %s tier %s: %d functions, %d obligations (+%d trivial), %d discharged, %d known findings, %d violations, %.1fs (load %.1fs, solvers %.1fs)\n",
+		*prop, *tier, len(results), total, trivial, discharged, len(knownHit), len(seenViol), wall, loadSecs, solverSecs)
+	return exit
+}
+
+func round3(f float64) float64 { return float64(int(f*1000+0.5)) / 1000 }
+
+// writeReplay stores the failed obligation with the solver output (and model) and tries to confirm
+// a model against the real code.
+func (e *Engine) writeReplay(verif, prop string, o *Oblig) string {
+	dir := filepath.Join(verif, "replays", prop)
+	os.MkdirAll(dir, 0o755)
+	name := sanitize(o.ID)
+	if len(name) > 150 {
+		name = name[:150]
+	}
+	rp := filepath.Join(dir, name+".json")
+	smt := ""
+	if o.SMTFile != "" {
+		if b, err := os.ReadFile(o.SMTFile); err == nil {
+			smt = string(b)
+			if len(smt) > 400000 {
+				smt = smt[:400000] + "\n; … truncated"
+			}
+		}
+	}
+	out := o.Output
+	if len(out) > 20000 {
+		out = out[:20000]
+	}
+	rec := map[string]interface{}{
+		"property":   prop,
+		"obligation": o.ID,
+		"kind":       o.Kind,
+		"function":   o.Fn,
+		"position":   o.Pos,
+		"path":       o.Path,
+		"verdict":    o.Verdict,
+		"solver":     o.Solver,
+		"solver_output": out,
+		"smt2":       smt,
+	}
+	if o.Verdict == "sat" && e.Replayer != nil {
+		inputs, ok, log := e.Replayer(o)
+		rec["inputs"] = inputs
+		rec["replay_log"] = log
+		o.Replayed = ok
+	}
+	rec["replayed_on_real_code"] = o.Replayed
+	b, _ := json.MarshalIndent(rec, "", " ")
+	os.WriteFile(rp, b, 0o644)
+	return rp
+}
+
+// CmdReplay prints a replay file and, when it carries a harness, runs it again on /repo.
+func CmdReplay(args []string) int {
+	if len(args) < 1 {
+		fmt.Println("usage: dgv replay <file>")
+		return 2
+	}
+	b, err := os.ReadFile(args[0])
+	if err != nil {
+		fmt.Println(err)
+		return 2
+	}
+	var rec map[string]interface{}
+	if err := json.Unmarshal(b, &rec); err != nil {
+		fmt.Println(err)
+		return 2
+	}
+	fmt.Printf("property   %v\nobligation %v\nfunction   %v\nposition   %v\nverdict    %v (%v)\npath       %v\nreplayed   %v\n", rec["property"], rec["obligation"],
+		rec["function"], rec["position"], rec["verdict"], rec["solver"], rec["path"], rec["replayed_on_real_code"])
+	if in, ok := rec["inputs"]; ok {
+		ib, _ := json.Marshal(in)
+		fmt.Printf("inputs     %s\n", ib)
+	}
+	log, _ := rec["replay_log"].(string)
+	i := strings.Index(log, "harness:\n")
+	j := strings.Index(log, "\noutput:\n")
+	if i < 0 || j < i {
+		fmt.Println("no harness recorded (the verifier produced no replayable input); solver output:")
+		fmt.Println(rec["solver_output"])
+		return 0
+	}
+	src := log[i+len("harness:\n") : j]
+	fn, _ := rec["function"].(string)
+	k := strings.LastIndex(fn, ".")
+	pkg := fn
+	// function keys are "<pkgpath>.<name>" or "<pkgpath>.(T).m"
+	if p := strings.Index(fn, ".("); p >= 0 {
+		pkg = fn[:p]
+	} else if k >= 0 {
+		pkg = fn[:k]
+	}
+	out, err := runOverlayTest("/repo", pkg, src, 60)
+	fmt.Println(out)
+	if err != nil {
+		fmt.Println("exit:", err)
+	}
+	return 0
+}
